@@ -108,6 +108,22 @@ def addrLine (line : String) : String :=
     match asOptStr fds, parsePidSpec pid, asOptStr names, asNat passed, asStr a with
     | some fds, some pid, some names, some passed, some a => render (actenvLine fds pid names passed a)
     | _, _, _, _, _ => "(model-case-error)"
+  | some (.list [.atom "actenv2", .list [f1, p1, n1, a1], .list [f2, p2, n2, a2], passed]) =>
+    -- two listeners in one process: `activationListener` is a function of the environment at the
+    -- moment of the call, nothing is remembered from the first one
+    let one (f p n a : Sx) (passed : Nat) : Option Sx :=
+      match asOptStr f, parsePidSpec p, asOptStr n, asStr a with
+      | some f, some p, some n, some a =>
+        (match actenvLine f p n passed a with
+         | .list [_, r] => some r
+         | _ => none)
+      | _, _, _, _ => none
+    match asNat passed with
+    | some passed =>
+      (match one f1 p1 n1 a1 passed, one f2 p2 n2 a2 passed with
+       | some r1, some r2 => render (.list [.atom "listener2", r1, r2])
+       | _, _ => "(model-case-error)")
+    | none => "(model-case-error)"
   | some (.list [.atom "actlisten", _, _, rounds]) =>
     -- every round: the activated service adopts the supervisor's socket (C16_spawn_recipe /
     -- activationListener: one descriptor, own pid) and answers GetInfo; the socket's path is the supervisor's
@@ -216,6 +232,16 @@ def addrPred (prop caseLine obsLine : String) : String :=
       match asOptStr fds, parsePidSpec pid, asOptStr names, asStr a with
       | some fds, some pid, some names, some a => verdictStr (AddrPred.P_actenv fds pid names a (parseLRes r))
       | _, _, _, _ => "fail unparsable-case"
+    | .list [.atom "actenv2", .list [f1, p1, n1, a1], .list [f2, p2, n2, a2], _], .list [.atom "listener2", r1, r2] =>
+      let one (f p n a r : Sx) : Option (Option String) :=
+        match asOptStr f, parsePidSpec p, asOptStr n, asStr a with
+        | some f, some p, some n, some a => some (AddrPred.P_actenv f p n a (parseLRes r))
+        | _, _, _, _ => none
+      match one f1 p1 n1 a1 r1, one f2 p2 n2 a2 r2 with
+      | some (some r), _ => "fail " ++ r
+      | some none, some (some r) => "fail second-listener-" ++ r
+      | some none, some none => "ok"
+      | _, _ => "fail unparsable-case"
     | .list [.atom "actlisten", nb, idle, _], .list (.atom "actlisten" :: rs) =>
       let suffix := "-nonblock-" ++ render nb ++ "-idle-" ++ render idle
       let bad := rs.findSome? fun r => match r with
